@@ -634,3 +634,5 @@ def run(ctx):
     # the memory a container holds in a tick is what the generator set: the setter stores the value given (and books the difference), unconditionally (C04#2)
     from . import c04
     c04.check_delta(Renumber(ctx, {2: 4}), 2)
+    # "otherwise succeeds after exactly the summed tick count": nothing ends a container that stays within its allocation while the pool fits (C04#5-#7)
+    c04.check_kills(Renumber(ctx, {5: 5, 6: 5, 7: 5}))
